@@ -24,6 +24,20 @@ def known_cases(prop):
     return out
 
 
+def known_elsewhere(props):
+    """Predicate: key is a recorded known finding of one of `props` (used by
+    checks that re-use the invariants of other properties, so that a defect
+    recorded there is not reported a second time under this property)."""
+    from .core import Findings
+
+    f = Findings()
+
+    def pred(key):
+        return any(f.match(p, key) for p in props)
+
+    return pred
+
+
 def exc_key(rep):
     return "exception:%s@%s" % (rep.get("exc_type"), rep.get("exc_where"))
 
@@ -82,10 +96,12 @@ def execute_cases(ctx, tag, cases, make_history, judge, keep=False):
     return out
 
 
-def monitor_violations(reports, add, prefix=""):
+def monitor_violations(reports, add, prefix="", skip=None):
     """Forward the violations recorded by the monitors of every step."""
     for i, rep in enumerate(reports):
         for v in rep.get("violations", []) or []:
+            if skip is not None and skip(v["key"]):
+                continue
             add(prefix + v["key"], f"step {i}: {v['msg']} (x{v['count']})",
                 {"step": i})
 
